@@ -213,7 +213,7 @@ def vclass(p, v, cls):
     return cls
 
 
-def exercise(ctx, prs, label, rng, budget, none_first=False, zero_first=False, world=None):
+def exercise(ctx, prs, label, rng, budget, none_first=False, zero_first=False, world=None, sweep=False):
     """assign properties on the objects of one deck; -> {(path, name): reading} for the re-open comparison"""
     table = oplab.prop_table()
     by_kind = {}
@@ -226,9 +226,32 @@ def exercise(ctx, prs, label, rng, budget, none_first=False, zero_first=False, w
         for obj, path in world.objs.get(kind, []):
             for p in plist:
                 todo.append((p, obj, path))
+    fixed = {}
+    if sweep:
+        # systematic: every distinct in-domain value the property's generator knows (its boundary values among them), on
+        # the first and the last object of each kind, in generator order (not sampled)
+        todo = []
+        for kind, plist in by_kind.items():
+            objs = world.objs.get(kind, [])
+            for obj, path in ([objs[0], objs[-1]] if len(objs) > 1 else objs):
+                for p in plist:
+                    seen_v = []
+                    for i in range(48):
+                        try:
+                            v = p.gen(random.Random(i))
+                        except Exception:  # noqa
+                            continue
+                        if repr(v) not in seen_v:
+                            seen_v.append(repr(v))
+                            fixed[len(todo)] = v
+                            todo.append((p, obj, path))
+                        if len(seen_v) >= 10:
+                            break
     # the same property of the same object is assigned several times in a history (Length then float, None then a value,
     # one enum member then another): a setter that is right on a fresh element may be wrong on the one it left behind
-    if none_first:
+    if sweep:
+        pass
+    elif none_first:
         # systematic: None assigned to every property that documents it, on every object, while the object is still as it
         # was built (nothing explicit to remove: the assignment must be a no-op on everything else the element holds)
         todo = [t for t in todo if t[0].none_ok]
@@ -242,11 +265,14 @@ def exercise(ctx, prs, label, rng, budget, none_first=False, zero_first=False, w
         todo = [t for t in todo if numeric(t[0])]
     else:
         todo = todo + rng.sample(todo, len(todo) // 2)
-    rng.shuffle(todo)
+    if not sweep:
+        rng.shuffle(todo)
     # text setters replace paragraphs and runs (objects obtained earlier then describe detached elements): they come last
     todo = todo[:budget]
-    todo = [t for t in todo if t[0].name != "text"] + [t for t in todo if t[0].name == "text"]
-    for p, obj, path in todo:
+    order = list(range(len(todo)))
+    order = [i for i in order if todo[i][0].name != "text"] + [i for i in order if todo[i][0].name == "text"]
+    for ti in order:
+        p, obj, path = todo[ti]
         # always work through a live proxy: an earlier structural assignment (has_legend = False, has_title = False, a text
         # assignment) may have replaced the element the object found at discovery time stands for
         try:
@@ -261,7 +287,9 @@ def exercise(ctx, prs, label, rng, budget, none_first=False, zero_first=False, w
         sibs = [q.name for q in by_kind[p.kind] if q.name != p.name and q.name not in COUPLED.get((p.kind, p.name), set())
                 and not (p.name in ("text",) or q.name in ("text",))]
         r = 0.0 if none_first else rng.random()
-        if zero_first:
+        if sweep:
+            v, cls = fixed[ti], "in"
+        elif zero_first:
             v, cls = type(p.gen(random.Random(0)))(0), "zero"
         elif r < 0.15 and p.none_ok:
             v, cls = None, "none"
@@ -691,6 +719,9 @@ def correspond(ctx):
     prs = build_deck()
     rec = exercise(ctx, prs, "generated-deck(None first)", rng, 10**6, none_first=True)
     reopen_check(ctx, prs, "generated-deck(None first)", rec)
+    prs = build_deck()
+    rec = exercise(ctx, prs, "generated-deck(every generator value)", rng, 10**6, sweep=True)
+    reopen_check(ctx, prs, "generated-deck(every generator value)", rec)
     from harness.props.c12 import bare
     b = io.BytesIO(); build_deck().save(b)
     bd, n = bare(b.getvalue())
